@@ -38,13 +38,18 @@ SUM_WARN = re.compile(r'^\s*(\d+) warnings?\s*$', re.M)
 def plan(tier, seed):
     n = 400 if tier == 'quick' else 6000
     nbig = 6 if tier == 'quick' else 40
-    return [{'big': i < nbig} for i in range(n)]
+    ndrift = 60 if tier == 'quick' else 600
+    return [{'big': i < nbig} for i in range(n)] + [{'drift': i} for i in range(ndrift)]
 
 
 def make_file(rng, k, allow_fatal, big, no_warn=False):
     """returns (text, events) — events: ordered list of 'E' / 'W' / 'F' as the assembler will meet them"""
     lines = ['\tcpu\t6502']
     ev = []
+    shift = (not big) and rng.random() < 0.25
+    if shift:
+        # a macro that discards its first argument: nothing of what it discards belongs to the names of the output files
+        lines += ['mshf\tmacro\ta,b', '\tshift', '\tbyt\ta', '\tendm']
     kinds = ['unk', 'err', 'warn', 'range', 'unk', 'err']
     if big:
         kinds = [rng.choice(['unk', 'err', 'warn'])]
@@ -85,7 +90,8 @@ def make_file(rng, k, allow_fatal, big, no_warn=False):
         if s in ('loff', 'lon'):
             lines.append('\tlisting\t%s' % ('off' if s == 'loff' else 'on'))
         elif s == 'c':
-            lines.append(rng.choice(['\tnop', '\tbyt\t1,2,3', 'l%d:\tlda\t#1' % len(lines), '\tadr\t$1234', '; comment']))
+            lines.append(rng.choice(['\tnop', '\tbyt\t1,2,3', 'l%d:\tlda\t#1' % len(lines), '\tadr\t$1234', '; comment']
+                                    + (['\tmshf\t%d,35' % (30 + len(lines) % 9)] * 3 if shift else [])))
         else:
             if fatal_at is not None and fi == fatal_at:
                 lines.append('\tfatal\t"stop here"')
@@ -110,7 +116,113 @@ def make_file(rng, k, allow_fatal, big, no_warn=False):
     return '\n'.join(lines) + '\n', ev
 
 
+DRIFT_KINDS = ('fwd', 'far', 'shrink', 'clean')
+
+
+def drift_file(rng, kind, idx):
+    """6502 sources whose labels move between passes; returns (text, planted errors or None when the manual leaves the outcome open)"""
+    org = 0x8000 + 0x400 * idx
+    if kind == 'fwd':
+        # the manual's own 'forward reference disaster': the branch is judged with the label values of the pass before;
+        # whether that ends in an error is left open, that status, code file and messages agree is not
+        n = rng.choice([44, 50, 60, 63])
+        return '\tcpu\t6502\n\torg\t%d\n\tbeq\tskip\n\trept\t%d\n\tlda\tzv\n\tendm\nskip:\tnop\nzv\tequ\t$10\n' % (org, n), None
+    if kind == 'far':
+        n = rng.choice([130, 200, 300])
+        return '\tcpu\t6502\n\torg\t%d\nback:\tnop\n\trept\t%d\n\tnop\n\tendm\n\tbeq\tback\n' % (org, n), 1
+    if kind == 'shrink':
+        return '\tcpu\t6502\n\torg\t%d\n\tlda\tzv\nlab:\tnop\n\tjmp\tlab\nzv\tequ\t$10\n' % org, 0
+    return '\tcpu\t6502\n\torg\t%d\nlab:\tnop\n\tjmp\tlab\n' % org, 0
+
+
+def run_drift(case, ctx):
+    """sources whose diagnostics depend on the pass: whatever was reported, status, code files and summaries agree with it"""
+    out = ctx.out
+    rng = ctx.rng
+    nfiles = rng.choice([1, 2, 2, 3])
+    kinds = [rng.choice(DRIFT_KINDS[:3]) if i == 0 else rng.choice(DRIFT_KINDS) for i in range(nfiles)]
+    if case['drift'] % 3 == 0 and nfiles > 1:
+        kinds[0], kinds[1] = 'far', 'shrink'
+    files = []
+    for i, kd in enumerate(kinds):
+        text, planted = drift_file(rng, kd, i)
+        ctx.write('d%d.asm' % i, text)
+        files.append(('d%d.asm' % i, kd, planted))
+    opts = rng.choice([[], ['-L'], ['-x'], ['-gnuerrors'], ['-L', '-x', '-x']])
+    quiet = rng.random() < 0.3
+    tname = ctx.path('trace.log')
+    argv = [f[0] for f in files] + opts + (['-q'] if quiet else [])
+    r = ctx.run('asl', argv, env={'ASL_VERIF_TRACE': tname}, timeout=300)
+    tag = 'asl %s [%s]' % (' '.join(argv), ','.join(kinds))
+    out.sample = {'files': kinds, 'opts': opts}
+    out.sig = ('drift', tuple(kinds), tuple(opts), quiet)
+    out.nontrivial = True
+    if r.timed_out:
+        out.inconc('timeout')
+        return
+    if r.san:
+        out.violate(r.san, tag + ': ' + r.err.decode('latin-1')[-600:])
+        return
+    try:
+        with open(tname, encoding='latin-1') as f:
+            trace = asl.parse_trace(f.read())
+    except OSError:
+        trace = []
+    per_file = []
+    cur = {'D': [], 'final': None}
+    for e in trace:
+        if e['k'] == 'D':
+            cur['D'].append(e)
+        elif e['k'] == 'F':
+            cur['final'] = e
+            per_file.append(cur)
+            cur = {'D': [], 'final': None}
+    if len(per_file) != nfiles:
+        out.violate('drift:sources-finished', '%s: %d of %d sources reached their end' % (tag, len(per_file), nfiles))
+        return
+    text_err = r.err.decode('latin-1')
+    text_out = r.out.decode('latin-1')
+    rx = GNU_RE if '-gnuerrors' in opts else NATIVE_RE
+    n_msgs = sum(1 for _ in rx.finditer(text_err))
+    n_ev = sum(len(pf['D']) for pf in per_file)
+    if n_msgs != n_ev:
+        out.violate('channel-vs-events', '%s: error channel shows %d messages, hook saw %d issued' % (tag, n_msgs, n_ev))
+    any_err = []
+    sums_e = [int(x) for x in SUM_ERR.findall(text_out)] if not quiet else None
+    for i, (name, kd, planted) in enumerate(files):
+        pf = per_file[i]
+        n_e = sum(1 for d in pf['D'] if d['class'] in ('E', 'F'))
+        any_err.append(n_e > 0)
+        if planted is not None and n_e != planted:
+            out.violate('events-vs-planted', '%s: %s (%s) planted %d errors, hook saw %d' % (tag, name, kd, planted, n_e))
+        has_p = os.path.exists(ctx.path(name[:-4] + '.p'))
+        if has_p != (n_e == 0):
+            out.violate('code-file-%s' % ('kept-despite-errors' if has_p else 'missing-after-clean-run'),
+                        '%s: %s %s although %d errors were reported for %s (%s)' % (tag, name[:-4] + '.p', 'exists' if has_p else 'is missing', n_e, name, kd))
+        if sums_e is not None:
+            fin = int(pf['final']['passes'])
+            n_fin = sum(1 for d in pf['D'] if d['class'] in ('E', 'F') and int(d['pass']) == fin)
+            if i >= len(sums_e):
+                out.violate('summary-missing', '%s: no summary totals for %s on the console' % (tag, name))
+            elif sums_e[i] != n_fin or (n_e > 0) != (sums_e[i] > 0):
+                out.violate('summary-totals-wrong', '%s: summary for %s (%s) says %d errors, %d were reported (%d of them in the last pass)' % (tag, name, kd, sums_e[i], n_e, n_fin))
+            else:
+                out.obs['summaries_checked'] += 1
+        out.obs['files_checked'] += 1
+        out.obs['drift_files_checked'] += 1
+        out.obs['diagnostic_events_seen'] += len(pf['D'])
+        if int(pf['final']['passes']) > 1:
+            out.obs['drift_multi_pass_files'] += 1
+    exp_rc = 2 if any(any_err) else 0
+    if r.rc != exp_rc:
+        out.violate('exit-status:expected-%d-got-%s' % (exp_rc, r.rc), '%s: errors reported per file %s -> expected status %d, got %s' % (tag, any_err, exp_rc, r.rc))
+    out.sets['statuses_seen'].add(str(r.rc))
+    out.sets['channels'].add('drift')
+
+
 def run_case(case, ctx):
+    if 'drift' in case:
+        return run_drift(case, ctx)
     out = ctx.out
     rng = ctx.rng
     big = case.get('big')
@@ -156,6 +268,10 @@ def run_case(case, ctx):
         opts += ['-E', chan]
     elif chan == 'perfile':
         opts += ['-E']
+    n_onames = rng.randrange(1, nfiles + 1) if (not big and rng.random() < 0.3) else 0
+    for i in range(n_onames):
+        # -o names are handed to the sources one after the other; the sources beyond the last name use <source>.p
+        opts += ['-o', 'out%d.p' % i]
     files = []
     for i in range(nfiles):
         k = rng.choice(K_BIG) if big else rng.choice(K_SET)
@@ -291,8 +407,10 @@ def run_case(case, ctx):
     si = 0
     for i, (name, ev, k) in enumerate(files):
         x = exp[i]
-        pname = name[:-4] + '.p'
+        pname = ('out%d.p' % i) if i < n_onames else name[:-4] + '.p'
         has_p = os.path.exists(ctx.path(pname))
+        if i < n_onames and os.path.exists(ctx.path(name[:-4] + '.p')):
+            out.violate('code-file-under-default-name-despite-o', '%s: %s exists although -o assigns %s to %s' % (tag, name[:-4] + '.p', pname, name))
         if x is None:
             if has_p:
                 out.violate('code-file-for-unassembled-source', '%s: %s exists although the run stopped before %s' % (tag, pname, name))
